@@ -16,7 +16,7 @@ From Coq Require Import List ZArith NArith Bool Arith.
 Import ListNotations.
 From DD Require Import Base.PyStr Base.Value Diff.Tree Diff.DiffModel Path.PathModel
   Filter.FilterModel Filter.FilterProofs Filter.FilterExclude Filter.FilterThreshold Filter.FilterInclude
-  Filter.FilterWitness.
+  Filter.FilterWitness Filter.FilterIndep.
 
 (** ** Exclusion: literal (P = membership of the rendered path in exclude_paths) or by regex (P arbitrary) *)
 
@@ -126,6 +126,35 @@ Theorem C13_exclude_default_index_refuted :
   filter (fun e => not_under (excluded no_skip ex) (ep1 e)) (fst (run_diff hatom udiff ops no_skip no_skip c t1 t2)).
 Proof. exists h0, u0, w2_ops, w2_ex, default0, w2_t1, w2_t2. exact exclude_default_index_refuted. Qed.
 Print Assumptions C13_exclude_default_index_refuted.
+
+(** ** "Content under an excluded path never causes or suppresses an entry elsewhere"
+
+    [prune P [] t] replaces every sub-value of t at a skipped position by None (dict keys and list lengths
+    stay).  Positional mode, EVERY threshold, dictionary keys without ==-aliases of another type (no bool /
+    float keys): two input pairs that agree outside the skipped positions get the same filtered entries
+    (kind and both paths; the values shown for an entry ABOVE a skipped position naturally contain it). *)
+Theorem C13_exclude_independent_partial :
+  forall hatom udiff ops (P E : path -> bool) (c : cfg) (t1 t2 t1' t2' : value),
+  zip c = true ->
+  keys_all key_plain t1 = true -> keys_all key_plain t2 = true ->
+  keys_all key_plain t1' = true -> keys_all key_plain t2' = true ->
+  prune P [] t1 = prune P [] t1' -> prune P [] t2 = prune P [] t2' ->
+  map proj (fst (run_diff hatom udiff ops P E c t1 t2)) = map proj (fst (run_diff hatom udiff ops P E c t1' t2')).
+Proof. intros. apply exclude_agree; assumption. Qed.
+Print Assumptions C13_exclude_independent_partial.
+
+(** without the key guard it fails: 1 == True is ONE dictionary key and the level path takes t2's spelling,
+    so excluding root[1] does not cover what t1 holds under its key 1 *)
+Theorem C13_exclude_independent_alias_refuted :
+  exists hatom udiff ops (P E : path -> bool) (c : cfg) (t1 t1' t2 : value),
+  zip c = true /\ prune P [] t1 = prune P [] t1' /\
+  map proj (fst (run_diff hatom udiff ops P E c t1 t2)) <> map proj (fst (run_diff hatom udiff ops P E c t1' t2)).
+Proof.
+  exists w8_h, w8_u, w8_o, w8_P, no_skip, w8_c, w8_t1, w8_t1', w8_t2.
+  destruct exclude_independent_alias_refuted as (A & B & C).
+  split; [reflexivity|split; [exact A|]]. rewrite B, C. discriminate.
+Qed.
+Print Assumptions C13_exclude_independent_alias_refuted.
 
 (** ** Inclusion *)
 
